@@ -56,6 +56,8 @@ def key_of(ops, step, why=""):
         return "Arguments.read:" + ("+".join(sorted(shape)) or "plain")
     if t[0] == "spawn2":
         return "Process.twoChildren"
+    if t[0] == "spawnlate":
+        return "Process.joinBeforeOutput"
     if t[0] == "cmd":
         b = bytes.fromhex(t[2][1:])
         return "Process.commandLine:" + ("backslashInQuotes" if _bs_in_quotes(b) else "quoted" if b'"' in b else "plain")
@@ -266,6 +268,8 @@ def spawn_execs(ctx):
         ex.append(["spawn2 %d %d %d %d %d %d" % (code1, nin1, nout1, code2, nout2, nerr2)])
         # ... the second child started while the first child's stdin is still open (it must not inherit that descriptor)
         ex.append(["spawn2 %d %d %d %d %d %d 1" % (code1, nin1, nout1, code2, nout2, nerr2)])
+    # join() while the child has yet to write to a redirected stream nobody reads
+    ex.append(["spawnlate 7 5"]); ex.append(["spawnlate 0 100"])
     # the multiplexed read after a select() that timed out once (simulated by the driver's interposed select)
     for form in (1, 2):
         ex.append(["selto", "spawn %d 3 1 7 0 5000 300 %s" % (form, hexs(b"x"))])
